@@ -151,7 +151,7 @@ int main(int argc, char** argv) {
   for (int round = 0; round < rounds; ++round) {
     vh::Rng pr(seed * 7919 + round);           // the plan of a round is the same on every host
     int w = (int)pr.below(3), r = (int)pr.below(3);
-    Field f = (Field)pr.below(3);
+    Field f = (Field)(pr.below(2) == 0 ? 1 : pr.below(3));     // add fields (the delicate ones) in two of three rounds
     bool useBitset = pr.below(4) != 0;
     DataCommMode mode = modes[pr.below(5)];
     int density = (int)pr.below(5);            // 0: nothing written, 1: sparse, 2: half, 3: everything eligible, 4: all but one or two
@@ -169,8 +169,8 @@ int main(int argc, char** argv) {
     // its value was sent would contribute its old delta again.
     // (only with an update bitset and not with the enforced dense encoding: otherwise every mirror's content is sent in every
     // sync, refreshed totals included, and an application has to consume them first)
-    bool twoStep = f == F_ADD && pr.below(2) == 0 && useBitset && mode != onlyData;
-    if (twoStep && pr.below(2) == 0) { mode = noData; enforcedDataMode = mode; }   // let get_data_mode() choose
+    bool twoStep = f == F_ADD && pr.below(4) != 0 && useBitset && mode != onlyData;
+    if (twoStep && pr.below(3) != 0) { mode = noData; enforcedDataMode = mode; }   // let get_data_mode() choose
     std::vector<uint32_t> mine(G->size(), 0);   // this host's own contribution of the first step, per proxy
     vh::Rng wr(seed * 104729 + round * 64 + me);
     for (int step = 0; step < (twoStep ? 2 : 1); ++step) {
